@@ -179,6 +179,13 @@ def _one_case(rng, k, force=None):
             # the DataFrame's row index (default RangeIndex / a permutation of it as after sort_values or a shuffle / labels
             # outside 0..n-1 / strings / duplicate labels): rows are what matter, never their index labels
             "index": rng.choice([None, None, "perm", "perm", "offset", "str", "dup"]), "index_seed": rng.randint(0, 10**6)}
+    if rng.random() < 0.3:
+        case["col_order"] = rng.randint(1, 10 ** 6)
+    if rng.random() < 0.15:
+        # group columns that happen to be called "label" / "score" / "threshold" while the label and score columns have other names
+        width_ = max(ncols, 1)
+        case["gnames"] = rng.sample(["label", "score", "threshold", "group", "index"], width_)
+        case["label_col"], case["score_col"] = "y_true", "y_score"
     if rng.random() < 0.2:
         # group columns of categorical dtype whose category order is not alphabetical (age bands, severity levels):
         # the values are the same strings, so the labelled rows are the same
@@ -241,8 +248,13 @@ def _frame(df, np):
             "columns": cols, "data": data, "shape": list(df.shape)}
 
 
+def _gname(case, j):
+    names = case.get("gnames")
+    return names[j] if names else f"g{j}"
+
+
 def group_columns(case):
-    return "g0" if case["ncols"] == 0 else [f"g{j}" for j in range(case["ncols"])]
+    return _gname(case, 0) if case["ncols"] == 0 else [_gname(case, j) for j in range(case["ncols"])]
 
 
 def run_impl(case):
@@ -256,10 +268,20 @@ def run_impl(case):
     SB = sys.modules["score_analysis.showbias"]     # the package attribute `showbias` is the function
 
     width = max(case["ncols"], 1)
-    data = {f"g{j}": [r[0][j] for r in case["rows"]] for j in range(width)}
-    data["label"] = [r[1] for r in case["rows"]]
-    data["score"] = [fl(r[2]) for r in case["rows"]]
+    gcols = [_gname(case, j) for j in range(width)]
+    lcol, scol = case.get("label_col", "label"), case.get("score_col", "score")
+    data = {gcols[j]: [r[0][j] for r in case["rows"]] for j in range(width)}
+    data[lcol] = [r[1] for r in case["rows"]]
+    data[scol] = [fl(r[2]) for r in case["rows"]]
     df = pd.DataFrame(data)
+    if case.get("col_order"):      # the frame's own column order differs from the order in which the group columns are requested
+        import random as _random
+        cols_ = list(df.columns)
+        _random.Random(case["col_order"]).shuffle(cols_)
+        if width >= 2 and [c for c in cols_ if c in gcols] == gcols:
+            i_, j_ = cols_.index(gcols[0]), cols_.index(gcols[-1])
+            cols_[i_], cols_[j_] = cols_[j_], cols_[i_]
+        df = df[cols_].copy()
     if case.get("index"):
         import random as _random
         n_ = len(df)
@@ -270,13 +292,13 @@ def run_impl(case):
                     "dup": [i // 2 for i in range(n_)]}[case["index"]]
     thr = case["thr"]
     threshold = [fl(t) for t in thr] if isinstance(thr, list) else fl(thr)
-    kwargs = dict(data=df, group_columns=group_columns(case), label_column="label", score_column="score", metric=case["metric"],
+    kwargs = dict(data=df, group_columns=group_columns(case), label_column=lcol, score_column=scol, metric=case["metric"],
                   normalize=case["normalize"], pos_label=case["pos_label"], score_class=case["sc"], equal_class=case["ec"],
                   threshold=threshold)
     # history: the same DataFrame object was analysed before with its group values rotated among the rows; the columns are
     # then put back in place (same object, same length) for the observed call
     if len(df) >= 2:
-        saved = {c: df[c].copy() for c in df.columns if c.startswith("g")}
+        saved = {c: df[c].copy() for c in df.columns if c in gcols}
         try:
             for c in saved:
                 df[c] = list(saved[c].iloc[1:]) + list(saved[c].iloc[:1])
@@ -289,7 +311,7 @@ def run_impl(case):
     if case.get("categorical"):
         import random as _random
         g2_ = _random.Random(case["categorical"])
-        for c in [c for c in df.columns if c.startswith("g")]:
+        for c in [c for c in df.columns if c in gcols]:
             cats = sorted(set(df[c]), reverse=True)
             if len(cats) > 2:
                 g2_.shuffle(cats)
